@@ -89,7 +89,7 @@ ADD = dict(
     C13=" Second Jacobian evaluation with a second symbolic active set on the same iterate, cached derivatives re-checked afterwards; default (None) active set; rho = 0 Hessian.",
     C14=" Newton variants with a caller-chosen symbolic tau and a reference active set; two consecutive steps of one ActiveSet / Full / Simplified method object (active set free to change) against the variant's reference system.",
     C15=" The oracle step solver may expose the lambda-scaled residual function (as the Symmetric / Asymmetric / Extended solvers do).",
-    C16=" Shapes with two constraint rows (max-norm != 2-norm); the same rules on a second solve of the same Solver object (self-composition).",
+    C16=" Shapes with two constraint rows (max-norm != 2-norm); the same rules on a second solve of the same Solver object (self-composition); the six policies driven directly over N arbitrary accepted iterates in exact arithmetic (every penalty handed back positive and not below the previous one).",
     C17=" LU requested with symmetric=True; the SuperLU stub's accuracy clause holds under its default partial pivoting only (relaxed pivoting / SymmetricMode: nothing promised).",
     C20=" A KKT matrix that admits no equilibration run through all 100 sweeps (exponents decided by forking): non-convergence must end in the error; KKT and m=0 dispatch; single working precision with float32 stores modelled as an uninterpreted round-to-nearest (R32).",
 )
